@@ -242,8 +242,15 @@ func runC13(c *harness.Ctx) {
 				}
 			}
 			count++
-			if fresh == nil || count%25 == 0 {
+			if fresh == nil || count%25 == 0 || len(fresh.u.W.SchedHist) != len(u.W.SchedHist) || len(fresh.u.W.EpochHist) != len(u.W.EpochHist) {
 				fresh = newTwin(u.W)
+			}
+			// the reused twin follows the configuration history of the walk
+			for len(reused.u.W.SchedHist) < len(u.W.SchedHist) {
+				reused.u.W.GasScheduleChange(u.W.SchedHist[len(reused.u.W.SchedHist)])
+			}
+			for len(reused.u.W.EpochHist) < len(u.W.EpochHist) {
+				reused.u.W.ConfirmEpoch(u.W.EpochHist[len(reused.u.W.EpochHist)])
 			}
 			orig := canonOutput(l.Out, l.Err) + "||" + string(u.W.Canonical())
 			// an unrelated call on the same function object of the reused twin first
@@ -279,7 +286,7 @@ func runC13(c *harness.Ctx) {
 			}
 			R.DistinctS("C13", l.Call.Func, sideName(l), fmt.Sprint(l.OK))
 		}
-		w := NewWalk(r.Fork(uint64(i)), R, WalkOpts{Steps: c.Scale(90, 150), Hostile: 20, OnLeg: onLeg, RecordPayable: true}, "C13")
+		w := NewWalk(r.Fork(uint64(i)), R, WalkOpts{Steps: c.Scale(90, 150), Hostile: 20, OnLeg: onLeg, RecordPayable: true, Reconfigure: true}, "C13")
 		w.Run()
 		R.Eval(w.U.N.Seq() * 3)
 		R.Distinct(w.U.W.Digest())
